@@ -86,7 +86,7 @@ type frame struct {
 	safety bool
 	depth  int
 	C      *Contract
-	defers []*ssa.Defer
+	defers []deferred
 	loops  map[*ssa.BasicBlock]*loopInfo
 	blockState map[*ssa.BasicBlock]*State // state at end of header pure prefix etc
 }
@@ -596,7 +596,7 @@ func (x *fnExec) instr(fr *frame, st *State, instr ssa.Instruction) {
 	case *ssa.Convert:
 		fr.env[t] = x.convert(x.val(fr, t.X), t.X.Type(), t.Type())
 	case *ssa.Defer:
-		fr.defers = append(fr.defers, t)
+		fr.defers = append(fr.defers, deferred{t, st.pc})
 	case *ssa.Go:
 		x.note("go statement in %s not modelled (sequential semantics)", funcKey(fr.fn))
 	case *ssa.Extract:
@@ -638,7 +638,23 @@ func (x *fnExec) instr(fr *frame, st *State, instr ssa.Instruction) {
 		x.rangeNext(fr, st, t)
 	case *ssa.RunDefers:
 		for i := len(fr.defers) - 1; i >= 0; i-- {
-			x.call(fr, st, fr.defers[i], nil)
+			d := fr.defers[i]
+			// the deferred call runs only on paths that registered it
+			reg := And(st.pc, d.cond)
+			if reg == False {
+				continue
+			}
+			skip := And(st.pc, Not(d.cond))
+			run := st.clone()
+			run.pc = reg
+			x.call(fr, run, d.instr, nil)
+			if skip == False {
+				st.pc, st.heap, st.epoch = run.pc, run.heap, run.epoch
+				continue
+			}
+			keep := st.clone()
+			m := mergeStates([]*Term{run.pc, skip}, []*State{run, keep})
+			st.pc, st.heap, st.epoch = m.pc, m.heap, m.epoch
 		}
 	case *ssa.Select:
 		x.note("select in %s: received values unknown; no heap effect modelled (sequential semantics)", funcKey(fr.fn))
@@ -902,6 +918,10 @@ func (x *fnExec) valEq(a, b Val) *Term {
 		return And(Eq(a.base(), b.base()), Eq(a.off(), b.off()), Eq(a.len(), b.len()))
 	case VIface:
 		if b.K == VIface {
+			if isZeroLit(a.Fs[0].T) || isZeroLit(b.Fs[0].T) {
+				// comparison with nil: the type tag decides
+				return Eq(a.Fs[0].T, b.Fs[0].T)
+			}
 			return And(Eq(a.Fs[0].T, b.Fs[0].T), Eq(a.Fs[1].T, b.Fs[1].T))
 		}
 	case VStruct, VTuple:
